@@ -15,7 +15,7 @@ import (
 
 func Shapes(r *report.Run) []string {
 	if r.Thorough() {
-		return []string{"S6-updates", "S4-split", "S7-removes", "S3-leaf-insert", "S8-mixed", "S9-multistore", "S5-rootsplit", "S2-emptied-root"}
+		return []string{"S6-updates", "S4-split", "S7-removes", "S3-leaf-insert", "S8-mixed", "S9-multistore", "S5-rootsplit", "S2-emptied-root", "S10-create-and-change"}
 	}
 	return []string{"S6-updates", "S4-split", "S7-removes"}
 }
